@@ -13,6 +13,7 @@ import Driver.Sched
 import Driver.Access
 import Driver.Format
 import Driver.LocalFS
+import Driver.CacheFS
 open Lean
 
 /-- one handler file per model (Driver/<Model>.lean); the request prefix selects it -/
@@ -35,6 +36,7 @@ def dispatch (j : Json) : Except String Json := do
   else if op.startsWith "access." then Driver.handleAccess op j
   else if op.startsWith "format." then Driver.handleFormat op j
   else if op.startsWith "localfs." then Driver.handleLocalFS op j
+  else if op.startsWith "cachefs." then Driver.handleCacheFS op j
   else throw s!"unknown op {op}"
 
 partial def loop (h : IO.FS.Stream) (out : IO.FS.Stream) : IO Unit := do
